@@ -108,8 +108,10 @@ class Exec:
             self.names += 1
             nk = '__fork__' if kind == 'fork' else KINDS[a % len(KINDS)]
             name = f'n{self.names}' + ['', '', '', '[3]', ' x', '\u00fc', '.q', '/z'][d % 8]
+            if d % 16 == 9: name = 100000 + self.names            # names are dictionary keys: any hashable will do (programmatic construction)
+            elif d % 16 == 10: name = ('n', self.names)
             if b % 5 == 0:      # a fork and a cell may share a name (separate name spaces; both parsers produce this)
-                other = [kk for kk in keys if kk[1] != (nk == '__fork__') and (kk[0], nk == '__fork__') not in m.nodes and '~' not in kk[0]]
+                other = [kk for kk in keys if kk[1] != (nk == '__fork__') and (kk[0], nk == '__fork__') not in m.nodes and '~' not in str(kk[0])]
                 if other:
                     name = other[cc % len(other)][0]
                     res.probe('shared_name')
